@@ -74,6 +74,9 @@ class Built(object):
     pass
 
 
+_HOLD = [1.0, 1.0, 1.0, 90.0, 90.0, 90.0]
+
+
 def build(case, max_points=1500):
     """Deterministically turn the drawn numbers into (group, cell, shell, oracle set)."""
     no, ch = GR.SETTINGS[case["setting"]]
@@ -135,7 +138,7 @@ def build(case, max_points=1500):
         B.edge = edge[0]
     else:
         B.edge = None
-    smin = 0.0
+    smin = 0.0 if int(case["gap"] * 1e6) % 5 else -0.25      # "no lower limit" written as 0 or as a negative number
     if case["smin_gap"] is not None:
         kk = gaps[gaps <= k]
         j = kk[min(len(kk) - 1, int(case["smin_gap"] * len(kk)))]
@@ -166,6 +169,10 @@ def build(case, max_points=1500):
         B.kw = dict(sgno=no, cell_choice=ch)
     # how the caller holds the cell: list, tuple, or one float ndarray (read-only: the generators must not modify it)
     B.cell_arg = tuple(cell) if how == "tuple" else typed_cell
+    if how == "list" and isinstance(typed_cell, list) and int(case["pick"] * 1e6) % 2 == 0:
+        # one list object per process, refilled in place for every case that takes this branch (a refinement loop does this)
+        _HOLD[:] = typed_cell
+        B.cell_arg = _HOLD
     B.oblique = any(abs(x - 90.0) > 1e-9 for x in cell[3:6]) and g.crystal_system in ("triclinic", "monoclinic", "trigonal") and \
         (ch == "rhombohedral" or g.crystal_system in ("triclinic", "monoclinic"))
     return B
